@@ -120,6 +120,10 @@ pub enum Op {
         sched_seed: u64,
         /// The turn moves with probability 1/switch_den at each yield point.
         switch_den: u64,
+        /// All threads load the SAME path (thread 0's image is installed there first; a
+        /// replacement planned by any thread changes what the others find).
+        #[serde(default)]
+        same_path: bool,
     },
 }
 
@@ -469,10 +473,26 @@ pub fn generate(seed: u64, run_index: u64, infos: &[PoolInfo]) -> Scenario {
                 probe_seed: rng.next_u64(),
             });
         }
+        // One concurrent run in three: everybody loads the same path while thread 0's load makes
+        // the updater replace the file (early, so that later callers start after the replacement).
+        let same_path = rng.chance(1, 3) && infos.len() > 1;
+        if same_path {
+            let mut other = rng.urange(0, infos.len() - 1);
+            if other == threads[0].image {
+                other = (other + 1) % infos.len();
+            }
+            let off = match rng.below(3) {
+                0 => 0,
+                1 => rng.urange(0, 64),
+                _ => aimed_offset(&mut rng, &infos[threads[0].image]),
+            };
+            threads[0].plan.replace_at = Some((off, other));
+        }
         ops.push(Op::Concurrent {
             threads,
             sched_seed: rng.next_u64(),
             switch_den: *rng.pick(&[1, 1, 2, 4, 16]),
+            same_path,
         });
     }
 
